@@ -18,7 +18,7 @@ EXPLANATION = (
     "copy and transform returns an object whose signal/noise alias no operand. C01.2: no method writes an operand's arrays or sample "
     "fields. C01.3: results are constructed by the receiver's dynamic class, and a rebuilt optical object is given no n_pol other than the receiver's. C01.4: both constructors are interpreted for every layout "
     "class of the input (ndim 0/1/2, first-axis length 1/2, n_pol None/1/2, noise given or not; shapes equal or not): mismatching shapes "
-    "never construct (ValueError), and the array stored for `noise` is the one stored for `signal` with signal replaced by noise. "
+    "never construct (ValueError), the array stored for `noise` is the one stored for `signal` with signal replaced by noise, and the optical constructor stores one axis for one polarisation and two for two. "
     "C01.5/6: in each of the four (self.noise, other.noise) None-cases the linear form of result.signal+result.noise equals the "
     "sum/difference of the operands' total fields and noise is present iff an operand has it; a raw (scalar/array) operand enters the "
     "arithmetic unaltered (no cast to the receiver's dtype). C01.7: decided on six length classes (lengths are only compared with each "
